@@ -531,6 +531,19 @@ def oracle(ctx, factor, seeds):
     todo = cases_for_tier(ctx)
     if factor > 1:
         todo = todo * 2
+    # witness of the defect repaired by a `fix:` commit (kept so that a regression is reported)
+    cat = {n: c for n, c, _ in T.catalogue()}
+    if 'CzarnyMapping' in cat:
+        o.evaluations += 1
+        fp = {'c2': 0.0625, 'b': 2.0, 'eps': 0.46875}
+        det0 = {'mapping': 'CzarnyMapping', 'dim': 2, 'params': {k: repr(v) for k, v in fp.items()}}
+        try:
+            with time_limit(240):
+                m0 = build('CzarnyMapping', cat['CzarnyMapping'], 2, fp)
+                check_symbolic(o, 'fixed:CzarnyMapping:float', m0, rng, det0)
+                check_callable(o, 'fixed:CzarnyMapping:float', m0, rng, det0, False)
+        except Timeout:
+            o.count('timeout')
     for name, cls, d, kind in todo:
         params = params_for(name, d, rng, kind)
         tag = '%s:%d:%s' % (name, d, kind)
